@@ -144,6 +144,12 @@ def build(ctx, root, normalise=True):
                 if callee is None:
                     raise AnalysisError('%s: spawn target %s not resolved' % (fi0.qualname, u(tgt) if tgt is not None else '?'))
                 args = kw.get('args')
+                if isinstance(args, ast.Name):
+                    # the tuple was named first: take the single assignment to that name in this function
+                    vals = [a.value for a in ast.walk(fi.node) if isinstance(a, ast.Assign) and len(a.targets) == 1
+                            and pseudo(a.targets[0]) == args.id]
+                    if len(vals) == 1:
+                        args = vals[0]
                 if not isinstance(args, (ast.Tuple, ast.List)) or kw.get('kwargs') is not None:
                     raise AnalysisError('%s: spawn arguments of %s are not a literal tuple' % (fi0.qualname, callee.name))
                 if len(args.elts) != len(callee.params):
@@ -156,6 +162,8 @@ def build(ctx, root, normalise=True):
                     hnd = pseudo(par.targets[0])
                 elif isinstance(par, (ast.ListComp,)) and isinstance(getattr(par, '_parent', None), ast.Assign):
                     hnd = pseudo(par._parent.targets[0])
+                elif isinstance(par, ast.Call) and isinstance(par.func, ast.Attribute) and par.func.attr == 'append':
+                    hnd = pseudo(par.func.value)
                 visit(callee, env2, SPAWNERS[e], arg_value(cnt) if cnt is not None else None, hnd)
             elif e is None:
                 callee = local_func(n.func, fi0) if isinstance(n.func, ast.Name) else None
